@@ -103,7 +103,7 @@ func pathReplay(s *Summary, raw json.RawMessage) {
 			return map[string]any{"kind": "path", "aspect": "regpath", "strict": st == "T", "registered": p, "what": what}
 		}
 		guard(s, desc(fmt.Sprintf("Add(%q) strict=%s", p, st)), t.P, func() {
-			r := rux.New(strictOpts(st)...)
+			r := newRouter(strictOpts(st)...)
 			got := r.Add(p, nopHandler).Path()
 			s.Compared++
 			if want := tokStr(t.Reg[st]); got != want {
@@ -114,7 +114,7 @@ func pathReplay(s *Summary, raw json.RawMessage) {
 			pre := tokStr(anyToks(g[0]))
 			want := tokStr(anyToks(g[1]))
 			guard(s, desc(fmt.Sprintf("Group(%q){Add(%q)} strict=%s", pre, p, st)), t.P, func() {
-				r := rux.New(strictOpts(st)...)
+				r := newRouter(strictOpts(st)...)
 				var rt *rux.Route
 				r.Group(pre, func() { rt = r.Add(p, nopHandler) })
 				s.Compared++
@@ -129,7 +129,7 @@ func pathReplay(s *Summary, raw json.RawMessage) {
 			pre, pre2 := tokStr(anyToks(g[0])), tokStr(anyToks(g[1]))
 			want := tokStr(anyToks(g[2]))
 			guard(s, desc(fmt.Sprintf("Group(%q){Group(%q){Add(%q)}} strict=%s", pre, pre2, p, st)), t.P, func() {
-				r := rux.New(strictOpts(st)...)
+				r := newRouter(strictOpts(st)...)
 				var rt *rux.Route
 				r.Group(pre, func() { r.Group(pre2, func() { rt = r.Add(p, nopHandler) }) })
 				s.Compared++
@@ -150,7 +150,7 @@ func pathFinish(s *Summary) {
 			p := tokStr(tp.P)
 			var r *rux.Router
 			if !guard(s, map[string]any{"kind": "path", "registered": p, "what": "Add"}, tp.P, func() {
-				r = rux.New(append(strictOpts(st), rux.HandleMethodNotAllowed)...)
+				r = newRouter(append(strictOpts(st), rux.HandleMethodNotAllowed)...)
 				r.Add(p, nopHandler, "GET")
 			}) {
 				continue
@@ -192,7 +192,7 @@ func pathFinish(s *Summary) {
 			if enc == "T" {
 				opts = append(opts, rux.UseEncodedPath)
 			}
-			r := rux.New(opts...)
+			r := newRouter(opts...)
 			registered := map[string]bool{}
 			for _, u := range pathSt.urls {
 				seen := tokStr(u.Seen[enc][st])
